@@ -53,6 +53,7 @@ type GhostDecl struct {
 }
 
 type PureFunc struct {
+	Opaque bool // compiled to an SMT function symbol with a definitional axiom instead of being expanded
 	Name   string
 	Params []string
 	Body   ast.Expr
@@ -215,7 +216,7 @@ func parseSpecExpr(text string) (ast.Expr, error) {
 
 var clauseKeywords = map[string]bool{"func": true, "pure": true, "requires": true, "ensures": true, "modifies": true,
 	"invariant": true, "assume": true, "prop": true, "inline": true, "trusted": true, "iter": true, "site": true,
-	"ghost": true, "params": true, "results": true, "purefn": true}
+	"ghost": true, "params": true, "results": true, "purefn": true, "opaque": true}
 
 func (c *Contracts) parseFile(path string) error {
 	data, err := os.ReadFile(path)
@@ -276,7 +277,7 @@ func (c *Contracts) parseFile(path string) error {
 				return fail(fmt.Errorf("duplicate contract for %s", key))
 			}
 			c.Funcs[key] = cur
-		case "pure":
+		case "pure", "opaque":
 			// pure name(a, b) = expr
 			eq := strings.Index(cl.rest, "=")
 			if eq < 0 {
@@ -299,7 +300,7 @@ func (c *Contracts) parseFile(path string) error {
 			if err != nil {
 				return fail(err)
 			}
-			c.Pures[name] = &PureFunc{Name: name, Params: params, Body: e, Text: text}
+			c.Pures[name] = &PureFunc{Name: name, Params: params, Body: e, Text: text, Opaque: cl.kw == "opaque"}
 		case "prop":
 			// prop C08: pat, pat
 			colon := strings.Index(cl.rest, ":")
